@@ -6,13 +6,15 @@ here = os.path.dirname(os.path.dirname(os.path.abspath(__file__)))
 seen = set()
 ok = True
 for prop, spec in sorted(P.PROPS.items()):
-    key = (spec.get("kind"), spec.get("pkg"), bool(spec.get("race")), bool(spec.get("instr")))
+    key = (spec.get("kind"), spec.get("pkg") or tuple(sorted(x["pkg"] for x in spec.get("parts", []))), bool(spec.get("race")), bool(spec.get("instr")))
     if key in seen or spec.get("kind") != "harness":
         continue
     seen.add(key)
     r = P.Runner(prop, "quick", 1, "/repo", here, None)
     r.bdir = os.path.join(here, "build", "warm-" + prop)
     err = r.prepare() or r.compile()
-    print("warm", prop, spec.get("pkg"), "FAILED: " + err if err else "ok")
+    print("warm", prop, spec.get("pkg") or [x["pkg"] for x in spec.get("parts", [])], "FAILED: " + err if err else "ok")
+    import shutil
+    shutil.rmtree(r.bdir, ignore_errors=True)
     ok = ok and not err
 sys.exit(0 if ok else 1)
